@@ -274,12 +274,22 @@ func scenarioRecover(c *harness.Ctx) {
 			// injected disk error at physical write j after ShortN bytes
 			fDiskErr.Hit()
 			s.Disk.ResetFaults()
-			s.Disk.FailWrite = tp.Choose(4)
-			s.Disk.ShortN = tp.Choose(size + 1)
-			if tp.Bool(1, 2) {
-				s.Disk.ShortN = tp.Choose(5)
+			if tp.Bool(1, 3) {
+				// a seek fails once (EIO); the position stays where it was
+				fSeekFault.Hit()
+				s.Disk.FailSeek = tp.Choose(3)
+				if tp.Bool(1, 2) {
+					// ... which, right after opening, is just behind the header
+					s.Disk.Pos = 8192
+				}
+			} else {
+				s.Disk.FailWrite = tp.Choose(4)
+				s.Disk.ShortN = tp.Choose(size + 1)
+				if tp.Bool(1, 2) {
+					s.Disk.ShortN = tp.Choose(5)
+				}
+				s.Disk.WriteErr = []error{simdisk.ErrIO, simdisk.ErrNoSpc}[tp.Choose(2)]
 			}
-			s.Disk.WriteErr = []error{simdisk.ErrIO, simdisk.ErrNoSpc}[tp.Choose(2)]
 			err := s.R.WriteSector(k.X, k.Z, data)
 			s.Disk.ResetFaults()
 			c.Logf("WriteSector(%d,%d,%d bytes) with injected disk error -> %v", k.X, k.Z, size, err)
@@ -359,3 +369,5 @@ var prop = &harness.Property{
 }
 
 func TestWorker(t *testing.T) { harness.Main(t, prop) }
+
+var fSeekFault = simrt.NewFault("disk.seek.fails.once.during.a.write")
